@@ -3,7 +3,7 @@ prop(
     quick=[("native", 16)],
     thorough=[("native", 16), ("asan", 8), ("miri", 8), ("fuzz", 16)],
     level="exploration",
-    min_evals={"quick": 450_000, "thorough": 7_000_000},
+    min_evals={"quick": 600_000, "thorough": 10_000_000},
     # configuration of the `fuzz` stage (driver side: run_fuzz_stage in ../../check, target: harness/fuzz/fuzz_targets/c11_xml.rs)
     fuzz={
         "seconds": 120,
@@ -51,7 +51,24 @@ prop(
         "The fuzz stage (thorough) adds coverage-guided libFuzzer executions of target c11_xml: input octet 0 selects one of the six parsers (provisioning::Message::decode, "
         "publication::Message::decode, ChildRequest / ParentResponse / PublisherRequest / RepositoryResponse::parse), the rest (up to 16 KiB) is the document; judged by the same "
         "function as the mutants (no panic in the parser, in writing an accepted value or in parsing that again; hook H1 drained). Seeded with up to 480 documents the library wrote "
-        "for generated messages of all variants; executions are counted as evaluations, not as signatures."
+        "for generated messages of all variants; executions are counted as evaluations, not as signatures. "
+        "Long values (c11_long.rs): values built as recipes of plain runs (no character that needs an escape; every 41st character a single space, or / in a URI) whose lengths sit on the ladder "
+        "255 256 257 1023 1024 1025 4095 4096 4097 8191 8192 8193 65535 65536 65537 (thorough: also 63..65, 127..129, 511..513, 2047..2049, 16 Ki, 32 Ki, 128 Ki, 1 Mi, each -1/+0/+1) and of characters that need an escape "
+        "(& < > \" ' and clusters such as && <> ]]> &amp; </a>; & and ' in URIs) in 12 shapes: special,run / short,special,run / run,special / run,special,short / special,run,special / run,special,run / "
+        "special,run,special,run,special / run / the same two with the whole value (not the run) on the ladder / (special,run)* and (run,special)* with 2..12 repetitions. Every (shape, ladder length) is put into each of 25 "
+        "fields: tag of child_request (serde), parent_response, publisher_request, repository_response, <publish>, <update>, <withdraw>; the same recipe in tag and uri of all three elements of one delta; class_name of revoke, "
+        "revoke_response, issue, issue_response, list_response; ServiceUri::Http; https service_uri of parent_response / repository_response, sia_base, rrdp_notification_uri, uri of <publish> / <update> / <withdraw> / <list>, "
+        "cert_url of <class> and of <certificate> in issue_response and list_response (lengths above 9000 for a third of the (field, shape) pairs, chosen by the seed). Resource sets whose text form (the library's Display, many "
+        "small pieces) just reaches / just misses 256, 1 Ki, 4 Ki, 8 Ki, 64 Ki octets (AS, IPv4, IPv6) in issue, issue_response and list_response. <description>, <error_text> and the tag of <report_error>, which only a decoder "
+        "sets, in documents written by the harness (judged like the text-level documents). Judgement: the constructor-built one (expat, parsed back equal); for a value longer than the RELAX NG schemas allow (tag, class_name, "
+        "description 1024; URIs 4096) the document must still be well-formed and, if parsed back, equal, but a decode error is only counted (open:longer-than-the-schema-allows:decode-error). Signature: (variant, field, shape, ladder length). "
+        "Sinks (c11_sink.rs): one message of every variant of every type with its optional parts in both states (38 fixed ones incl. list replies of 8 KiB / 64 KiB / 128 KiB, a delta with one 68 kB object, a 9 kB tag behind R&D, "
+        "a 70 kB list_response; spread over the shards by index + seed) and 6 (thorough 40) messages of the random generator per shard. Reference = what write_xml puts into a Vec (only documents that parse back equal are swept); "
+        "to_xml_vec / to_xml_string / to_xml_bytes must return the same octets. Then write_xml into a model sink with room for k octets for every k in 0..=len+1 (documents above 3000 octets, thorough 12000: the first 300, the last 600, "
+        "every k within 2 of a multiple of 4096, and a stride of 211 / 29 with a random phase): at every k a sink that refuses the whole call at the edge and one that takes the part that fits, then fail for good (ErrorKind Other / "
+        "BrokenPipe / WriteZero / WouldBlock / StorageFull in turn), plus in turn one of: Ok(0) for good (partial or not), 7 octets per call, 1 octet per call then Ok(0), 4096 per call, an error that happens once (later calls succeed). "
+        "Then sinks that never fail and take 1, 2, 3, 7, 61, 1000, 4096 octets per call, each also with every third call answered by ErrorKind::Interrupted. Law: Ok(()) implies sink contents == reference; anything else must be Err. "
+        "An Err although everything arrived, and an Err from a sink that merely takes few octets per call, are counted only. evaluations += one per write into a model sink and per to_xml_* comparison. Signature: (message label, length class)."
     ),
     assumptions=[
         "protocol-valid field values = printable ASCII strings where the API takes a string, handles matching RFC 8183's pattern, URIs accepted by the uri parsers, canonical resource sets, whole-second times in years 0001..9999, non-empty payloads; control characters and non-ASCII only occur in the parser-robustness part",
@@ -63,6 +80,9 @@ prop(
         "a message returned by a decoder for a document whose field values are all protocol-valid is a message constructed through the public API from protocol-valid field values; the round-trip law applies to it (text-level documents); a <publish>/<withdraw> without tag stays lenient there too",
         "lexical forms: which spellings of character data the library's reader accepts is its choice (CDATA, references, comments or PIs inside element text are refused by the unchanged reader; all attribute spellings are accepted) - only what it accepts is judged; the value an XML processor would report for a spelling is recorded in the detail but the decoded field is not compared with it (the statement demands the round trip, not a conformant reader)",
         "white space around element text (literal or pretty-printing) is layout, not content; a spelling that puts tab / CR / LF into a value (character references to them, literal line ends inside an attribute value or inside free text) makes the document lenient:control-character-in-value (recorded only)",
+        "length is not part of 'protocol-valid' as far as writing goes: a tag / class name / description above 1024 characters or a URI above 4096 (the bounds of the RELAX NG schemas) must still be written well-formed and, if the library parses it back, equal; only a decode error of the library's own output is then left open (counted under open:longer-than-the-schema-allows)",
+        "'is written as well-formed XML' is read for sinks that can fail as: write_xml may only return Ok(()) if the sink holds the complete document (the octets a Vec receives, which the other oracles have judged); the sink model is the contract of std::io::Write (short writes, Interrupted to be retried, any other error, Ok(0)); flush() of the model always succeeds, so a writer cannot learn of a lost write later. What a writer returns when the complete document arrived is left open",
+        "a model sink that answers Ok(0) gives up after 10000 such answers in a row and returns an error, so that a writer which keeps calling cannot stall the check; that it happened is recorded (sink:ok0_answered_10000_times_in_a_row), not reported: the statement does not speak about termination of writers",
     ],
     level_text=(
         "Runtime monitoring of the real writers and parsers on generated messages: every written document is judged by an independent XML "
@@ -74,8 +94,11 @@ prop(
     ),
     level_note=(
         "Sampling, not proof: string fields are ASCII only, lists up to ~600 entries, documents up to ~250 kB; certificate-bearing variants "
-        "reuse 3 certificates / 3 CSRs / 2 identity certificates per shard; Miri sees no certificate-bearing variant and no expat verdicts."
+        "reuse 3 certificates / 3 CSRs / 2 identity certificates per shard; Miri sees no certificate-bearing variant and no expat verdicts. "
+        "Long values: one value per (field, shape, ladder length) and run, plain runs drawn from one alphabet per field kind, lengths on the ladder only (a threshold at, say, 3000 is only met by the runs that happen to cross it); "
+        "values above 9000 octets in a third of the (field, shape) pairs per seed. Sinks: every k for documents up to 3000 octets, sampled k above; one failure per write (for good, or once), not sequences of failures; "
+        "sinks are synchronous std::io::Write only; the CMS-wrapping entry points (ProvisioningCms / PublicationCms::create) write into their own Vec and are C10's subject."
     ),
-    technique="runtime oracle (independent expat parser + round-trip equivalence) over constructor-built messages and over messages decoded from independently written documents with every optional part present/absent and with every attribute value / text node in every lexical form of XML (CDATA, character and entity references, comments, PIs, white space), failures attributed by re-writing the document one spelling at a time; mutation-based and coverage-guided (libFuzzer) parser robustness; ASan + Miri",
+    technique="runtime oracle (independent expat parser + round-trip equivalence) over constructor-built messages (incl. values with plain runs of 255 .. 64 Ki + 1 octets around the characters that need an escape, in every field), environment model of io::Write (room for k octets for every k, short writes, Interrupted, Ok(0), one-off errors) under the law Ok(()) => complete document, and over messages decoded from independently written documents with every optional part present/absent and with every attribute value / text node in every lexical form of XML (CDATA, character and entity references, comments, PIs, white space), failures attributed by re-writing the document one spelling at a time; mutation-based and coverage-guided (libFuzzer) parser robustness; ASan + Miri",
     design_ref="DESIGN.md §4 C11",
 )
